@@ -707,3 +707,55 @@ Definition consistent (o : opened) : bool :=
   | [] => true
   | _ => (l_xsz lay <=? l_begin_var lay) && (l_begin_var lay <=? l_begin_rec lay)
   end.
+
+(* ================================================================== *)
+(** * Witness files (data only): malformed inputs used by the refutation theorems of
+      Proofs_Reader.v; checks/C19.py replays exactly these bytes on the sanitizer build *)
+(* witnesses: one malformed file per crash site that input bytes can reach *)
+Definition u32 (x : Z) : list byte := put_u32 x.
+Definition u64 (x : Z) : list byte := put_u64 x.
+Definition nm1 (c : Z) : list byte := u32 1 ++ [c; 0; 0; 0].          (* CDF-1/2 name of one char *)
+Definition nm5 (c : Z) : list byte := u64 1 ++ [c; 0; 0; 0].          (* CDF-5 *)
+Definition absent1 : list byte := u32 0 ++ u32 0.
+Definition absent5 : list byte := u32 0 ++ u64 0.
+(* CDF-1, dim_list nelems = 2^31-1: PNETCDF_RNDUP(ndefined, 64) overflows `int` *)
+Definition w_rndup_int : list byte := [67; 68; 70; 1] ++ u32 0 ++ u32 10 ++ u32 2147483647 ++ absent1 ++ absent1.
+(* CDF-5, global attribute of type NC_BYTE with nelems = 2^64-1 (= -1): memcpy to NULL *)
+Definition w_attr_null : list byte :=
+  [67; 68; 70; 5] ++ u64 0 ++ absent5 ++ u32 12 ++ u64 1 ++ nm5 97 ++ u32 1 ++ u64 18446744073709551615 ++ absent5.
+(* CDF-5, NC_DOUBLE attribute with nelems = 2^63: nelems * xsz overflows in hdr_get_NC_attrV *)
+Definition w_attrV_mul : list byte :=
+  [67; 68; 70; 5] ++ u64 0 ++ absent5 ++ u32 12 ++ u64 1 ++ nm5 97 ++ u32 6 ++ u64 9223372036854775808 ++ absent5.
+(* CDF-5, NC_DOUBLE attribute with nelems = 2^61: nelems * 8 overflows in x_len_NC_attrV *)
+Definition w_attr_xlen : list byte :=
+  [67; 68; 70; 5] ++ u64 0 ++ absent5 ++ u32 12 ++ u64 1 ++ nm5 97 ++ u32 6 ++ u64 2305843009213693952 ++ absent5.
+(* CDF-1, two dimensions of 2^32-1 and a variable over both: product overflows in NC_var_shape64 *)
+Definition w_shape_product : list byte :=
+  [67; 68; 70; 1] ++ u32 0 ++ u32 10 ++ u32 2 ++ nm1 120 ++ u32 4294967295 ++ nm1 121 ++ u32 4294967295 ++
+  absent1 ++ u32 11 ++ u32 1 ++ nm1 118 ++ u32 2 ++ u32 0 ++ u32 1 ++ absent1 ++ u32 1 ++ u32 0 ++ u32 200.
+(* CDF-1, one dimension, a variable with ndims = 2^31-1: the three callocs of ncmpio_new_NC_var are
+   not tested; with an allocator that refuses 16 GiB the first dimid store goes through NULL *)
+Definition w_var_calloc : list byte :=
+  [67; 68; 70; 1] ++ u32 0 ++ u32 10 ++ u32 1 ++ nm1 120 ++ u32 5 ++ absent1 ++
+  u32 11 ++ u32 1 ++ nm1 118 ++ u32 2147483647 ++ u32 0 ++ u32 0 ++ u32 0 ++ u32 0.
+(* CDF-5, dimension of length 2^63 (negative as MPI_Offset), NC_INT variable over it:
+   ncmpio_NC_check_vlen multiplies 4 * -2^63 *)
+Definition w_check_vlen : list byte :=
+  [67; 68; 70; 5] ++ u64 0 ++ u32 10 ++ u64 1 ++ nm5 120 ++ u64 9223372036854775808 ++ absent5 ++
+  u32 11 ++ u64 1 ++ nm5 118 ++ u64 1 ++ u64 0 ++ absent5 ++ u32 4 ++ u64 0 ++ u64 200.
+(* CDF-2, begin = 2^63-4 of a fixed-size NC_DOUBLE scalar... begin + len overflows *)
+Definition w_begin_len : list byte :=
+  [67; 68; 70; 2] ++ u32 0 ++ absent1 ++ absent1 ++
+  u32 11 ++ u32 1 ++ nm1 118 ++ u32 0 ++ absent1 ++ u32 6 ++ u32 8 ++ u64 9223372036854775804.
+(* CDF-5, numrecs = 2^64-1 (the STREAMING value): accepted, numrecs = -1 *)
+Definition w_numrecs_neg : list byte :=
+  [67; 68; 70; 5] ++ u64 18446744073709551615 ++ absent5 ++ absent5 ++ absent5.
+(* CDF-5, a dimension of length 2^63+5 that no variable uses: accepted with a negative length *)
+Definition w_dim_neg : list byte :=
+  [67; 68; 70; 5] ++ u64 0 ++ u32 10 ++ u64 1 ++ nm5 120 ++ u64 9223372036854775813 ++ absent5 ++ absent5.
+(* CDF-1, dim_list nelems = 2^31-64: 16 GiB requested for a 48-byte file (before any dim is read) *)
+Definition w_alloc_dims : list byte := [67; 68; 70; 1] ++ u32 0 ++ u32 10 ++ u32 2147483584 ++ absent1 ++ absent1 ++ absent1 ++ absent1.
+(* CDF-1, global NC_BYTE attribute with nelems = 100000 in a 48-byte file: 100000 bytes allocated
+   and 100000 zero bytes "read" past the end of the file *)
+Definition w_read_zeros : list byte :=
+  [67; 68; 70; 1] ++ u32 0 ++ absent1 ++ u32 12 ++ u32 1 ++ nm1 97 ++ u32 1 ++ u32 100000 ++ absent1.
